@@ -20,6 +20,7 @@ var c05Ops = []string{
 	"insert 1", "insert 2", "insert 5", "insert null-key",
 	"update 1", "update range", "delete 1", "delete 2",
 	"arm-next-version-put",
+	"insert other-table", // a second s3db table on the same connection (SQLite begins each table lazily)
 }
 
 type c05Case struct {
@@ -88,7 +89,7 @@ func c05Worker(raw json.RawMessage) *engine.Result {
 }
 
 func isVersionPut(rq engine.Req) bool {
-	return rq.Op == "PUT" && strings.Contains(rq.Key, "/root/current/")
+	return rq.Op == "PUT" && strings.HasPrefix(rq.Key, "p/") && strings.Contains(rq.Key, "/root/current/")
 }
 
 func c05RunSeq(res *engine.Result, c c05Case, ops []int) ([]string, bool) {
@@ -121,6 +122,9 @@ func c05RunSeq(res *engine.Result, c c05Case, ops []int) ([]string, bool) {
 	cl := w.NewClient("w1")
 	must(cl.Create(engine.TableOpts{EPN: c.EPN}))
 	must(cl.Exec("create table nat(a primary key, b, c) without rowid"))
+	must(cl.Create(engine.TableOpts{EPN: c.EPN, Suffix: "_o", Prefix: "other"}))
+	must(cl.Exec("create table nat2(a primary key, b, c) without rowid"))
+	otherKey := 0
 	must(cl.Exec("begin"))
 	for _, k := range []int{1, 3, 4} {
 		must(cl.Exec("insert into nat values(?,?,?)", k, "v", k))
@@ -136,7 +140,7 @@ func c05RunSeq(res *engine.Result, c c05Case, ops []int) ([]string, bool) {
 		return engine.FaultNone, nil
 	}
 	committed, _ := cl.Query("select a,b,c from nat order by a")
-	var preBegin *engine.TreeDump
+	var preBegin, preBeginOther *engine.TreeDump
 	var txLogStart int
 	var lastDump *engine.TreeDump
 	lastDump, _ = engine.LiveDump(cl.Tab)
@@ -169,6 +173,7 @@ func c05RunSeq(res *engine.Result, c c05Case, ops []int) ([]string, bool) {
 		case "begin":
 			nontrivial = true
 			preBegin, _ = engine.LiveDump(cl.Tab)
+			preBeginOther, _ = engine.LiveDump(cl.Tab + "_o")
 			txLogStart = w.B.LogLen()
 			serr = cl.Exec("begin")
 			inTx = serr == nil
@@ -199,6 +204,17 @@ func c05RunSeq(res *engine.Result, c c05Case, ops []int) ([]string, bool) {
 			both("delete from %s where a=1")
 		case "delete 2":
 			both("delete from %s where a=2")
+		case "insert other-table":
+			otherKey++
+			both2 := func(q string, args ...interface{}) {
+				serr = cl.Exec(strings.ReplaceAll(q, "%s", "{T}_o"), args...)
+				if !inTx && serr != nil && engine.ErrClass(serr) == "err" {
+					nerr = fmt.Errorf("skipped")
+					return
+				}
+				nerr = cl.Exec(strings.ReplaceAll(q, "%s", "nat2"), args...)
+			}
+			both2("insert into %s values(?,?,?)", otherKey, "o", step)
 		case "arm-next-version-put":
 			armed = true
 			nontrivial = true
@@ -262,6 +278,11 @@ func c05RunSeq(res *engine.Result, c c05Case, ops []int) ([]string, bool) {
 		if gerr != nil || !got.Equal(nat) {
 			res.Violate("own-view-differs:"+op, "after %s the connection sees %v (err %v), native mirror %v [%s]", op, got, gerr, nat, where)
 		}
+		nat2, _ := cl.Query("select a,b,c from nat2 order by a")
+		got2, g2err := cl.Query("select a,b,c from {T}_o order by a")
+		if g2err != nil || !got2.Equal(nat2) {
+			res.Violate("own-view-differs-other-table:"+op, "after %s the second table shows %v (err %v), its native mirror %v [%s]", op, got2, g2err, nat2, where)
+		}
 		log := w.B.LogSince(logStart)
 		dump, _ := engine.LiveDump(cl.Tab)
 		if !inTx {
@@ -302,8 +323,9 @@ func c05RunSeq(res *engine.Result, c c05Case, ops []int) ([]string, bool) {
 			if n > 1 || (changed && n != 1) || (!changed && n != 0) {
 				res.Violate("versions-per-commit", "COMMIT wrote %d version objects (tree changed: %v) [%s]", n, changed, where)
 			}
-			if !c.WT && changed {
-				c05OneWriteTime(res, preBegin, dump, where)
+			if !c.WT {
+				od, _ := engine.LiveDump(cl.Tab + "_o")
+				c05OneWriteTime(res, preBegin, dump, preBeginOther, od, where)
 			}
 		default: // autocommit statement
 			n := versionPuts(log)
@@ -336,32 +358,39 @@ func c05Feat(res *engine.Result, from int, epn int) {
 	}
 }
 
-// c05OneWriteTime checks that everything a transaction wrote carries one write time.
-func c05OneWriteTime(res *engine.Result, before, after *engine.TreeDump, where string) {
-	old := map[string]engine.Entry{}
-	for _, e := range before.Entries {
-		old[e.Key] = e
-	}
+// c05OneWriteTime checks that everything a transaction wrote, in both tables, carries one write time.
+func c05OneWriteTime(res *engine.Result, before, after, before2, after2 *engine.TreeDump, where string) {
 	times := map[int64]bool{}
-	for _, e := range after.Entries {
-		o, had := old[e.Key]
-		if had && o.Canon(true) == e.Canon(true) {
-			continue
+	collect := func(before, after *engine.TreeDump) {
+		if before == nil || after == nil {
+			return
 		}
-		if !had || o.DelAt != e.DelAt || o.Deleted != e.Deleted {
-			times[e.DelAt] = true
+		old := map[string]engine.Entry{}
+		for _, e := range before.Entries {
+			old[e.Key] = e
 		}
-		for n, cv := range e.Cols {
-			if ov, ok := o.Cols[n]; !had || !ok || ov != cv {
-				times[cv.At] = true
+		for _, e := range after.Entries {
+			o, had := old[e.Key]
+			if had && o.Canon(true) == e.Canon(true) {
+				continue
+			}
+			if !had || o.DelAt != e.DelAt || o.Deleted != e.Deleted {
+				times[e.DelAt] = true
+			}
+			for n, cv := range e.Cols {
+				if ov, ok := o.Cols[n]; !had || !ok || ov != cv {
+					times[cv.At] = true
+				}
 			}
 		}
 	}
+	collect(before, after)
+	collect(before2, after2)
 	if len(times) > 1 {
 		var ts []string
 		for t := range times {
 			ts = append(ts, fmt.Sprint(t))
 		}
-		res.Violate("several-write-times-in-one-transaction", "the writes of one transaction carry %d different times %v:\n%s\n[%s]", len(times), ts, after.Canon(true), where)
+		res.Violate("several-write-times-in-one-transaction", "the writes of one transaction carry %d different times %v [%s]", len(times), ts, where)
 	}
 }
